@@ -173,3 +173,240 @@ fn c08_size_accounting() {
 fn stub_creation_ts(_p: &Path) -> DateTime<Local> {
     stub_now()
 }
+
+// ================================================================================================
+// State step harnesses ("glue level", DESIGN.md 3.5): one call of State::write_buffer /
+// mount_next_linewriter_if_necessary / flush / shutdown on a directly constructed Active state.
+// The leaves the step calls (index_for_rcurrent, open_log_file, cleanup) are replaced by recording
+// contract stubs - each leaf is decided against that contract in its own harness - so that the
+// step's own logic is what CBMC executes: the rotation decision, the order rename -> open ->
+// reset -> cleanup -> write, size accounting, which writer receives the record, error handling.
+//
+// Event log (vs::ev_*):  1 = rename/close step (index_for_rcurrent), 2 = open_log_file,
+//   3 = cleanup, 0x100 | id<<4 | len = write of `len` bytes to writer `id`, 0x200 | id = flush of
+//   writer `id`, 5 = error reported through eprint_err.
+// Cells: 0 = fault selector (1 = rename step fails, 2 = open fails, 3 = cleanup fails, 4 = write fails),
+//        1 = next writer id handed out by the open stub.
+use crate::writers::file_log_writer::verif_harness::mk_config;
+use crate::{FileSpec, WriteMode};
+
+struct RecW {
+    id: u32,
+}
+impl Write for RecW {
+    fn write(&mut self, b: &[u8]) -> std::io::Result<usize> {
+        if vs::cell_get(0) == 4 {
+            return Err(std::io::Error::from_raw_os_error(28)); // ENOSPC
+        }
+        vs::ev_push(0x100 | self.id << 4 | (b.len() as u32 & 0xf));
+        Ok(b.len())
+    }
+    fn flush(&mut self) -> std::io::Result<()> {
+        vs::ev_push(0x200 | self.id);
+        Ok(())
+    }
+}
+fn stub_index_for_rcurrent(_c: &FileLogWriterConfig, o_idx: Option<u32>, rotate: bool) -> Result<u32, std::io::Error> {
+    vs::ev_push(1);
+    if vs::cell_get(0) == 1 {
+        return Err(std::io::Error::from_raw_os_error(13));
+    }
+    // contract (decided in c06_index_for_rcurrent): remembered index + 1 once the current file was renamed
+    let idx = o_idx.unwrap_or(0);
+    Ok(if rotate { idx + 1 } else { idx })
+}
+fn stub_open_log_file(_c: &FileLogWriterConfig, _o_infix: Option<&str>) -> Result<(Box<dyn Write + Send>, PathBuf), std::io::Error> {
+    vs::ev_push(2);
+    if vs::cell_get(0) == 2 {
+        return Err(std::io::Error::from_raw_os_error(13));
+    }
+    let id = vs::cell_inc(1) as u32;
+    Ok((Box::new(RecW { id }), PathBuf::from("n")))
+}
+fn stub_cleanup(
+    _h: Option<&list_and_cleanup::CleanupThreadHandle>,
+    _c: &Cleanup,
+    _f: &FileSpec,
+    _i: &InfixFilter,
+    _d: bool,
+) -> Result<(), std::io::Error> {
+    vs::ev_push(3);
+    if vs::cell_get(0) == 3 {
+        return Err(std::io::Error::from_raw_os_error(5));
+    }
+    Ok(())
+}
+fn stub_eprint_err_ev(_c: ErrorCode, _m: &str, _e: &dyn std::error::Error) {
+    vs::ev_push(5);
+}
+fn cut_ts_current(_c: &FileLogWriterConfig, _i: &str, _r: bool, _d: Option<&DateTime<Local>>, _f: &InfixFormat) -> Result<DateTime<Local>, std::io::Error> {
+    unreachable!("VERIF-CUT creation_timestamp_of_currentfile in a Numbers instance")
+}
+fn cut_infix_from_ts(_t: &DateTime<Local>, _u: bool, _f: &InfixFormat) -> String {
+    unreachable!("VERIF-CUT infix_from_timestamp in a Numbers instance")
+}
+// CBMC does not fold the niche-encoded discriminant of `Inner`: the `Inner::Initial` arm of
+// write_buffer (initialize -> initialize_with_rotation -> thread spawn ...) is explored although the
+// harness constructs `Inner::Active`. Reaching this cut is a reported failure.
+fn cut_initialize(_s: &mut State) -> Result<(), std::io::Error> {
+    unreachable!("VERIF-CUT State::initialize on an Active state")
+}
+fn cut_number_infix(_i: u32) -> String {
+    unreachable!("VERIF-CUT number_infix in a NumbersRCurrent instance")
+}
+
+fn numbers_state(idx: u32, max_size: u64, current_size: u64) -> State {
+    let cfg = mk_config(FileSpec::default().directory("d").basename("b").suffix("l").suppress_timestamp(), false, WriteMode::Direct);
+    State {
+        config: cfg,
+        inner: Inner::Active(
+            Some(RotationState {
+                naming_state: NamingState::NumbersRCurrent(idx),
+                roll_state: RollState::Size { max_size, current_size },
+                cleanup: Cleanup::Never,
+                o_cleanup_thread_handle: None,
+            }),
+            Box::new(RecW { id: 0 }),
+            PathBuf::from("c"),
+        ),
+    }
+}
+
+macro_rules! step_harness {
+    ($u:literal, fn $name:ident() $body:block) => {
+        #[kani::proof]
+        #[kani::unwind($u)]
+        #[kani::stub(verif_support::reexp::catch_unwind, verif_support::stub_cu)]
+        #[kani::stub(chrono::Local::now, stub_now)]
+        #[kani::stub(get_creation_timestamp, stub_creation_ts)]
+        #[kani::stub(numbers::index_for_rcurrent, stub_index_for_rcurrent)]
+        #[kani::stub(numbers::number_infix, cut_number_infix)]
+        #[kani::stub(open_log_file, stub_open_log_file)]
+        #[kani::stub(list_and_cleanup::remove_or_compress_too_old_logfiles, stub_cleanup)]
+        #[kani::stub(timestamps::creation_timestamp_of_currentfile, cut_ts_current)]
+        #[kani::stub(timestamps::infix_from_timestamp, cut_infix_from_ts)]
+        #[kani::stub(crate::util::eprint_err, stub_eprint_err_ev)]
+        #[kani::stub(State::initialize, cut_initialize)]
+        fn $name() $body
+    };
+}
+
+// The step is decided in two halves that compose along the crate's own call structure, because
+// `write_buffer` consumes the Result of the rotation half with `unwrap_or_else(|e| eprint_err(..))`:
+// dropping a FlexiLoggerError makes CBMC unwind the mutually recursive drop glue
+// FlexiLoggerError -> io::Error -> Box<dyn Error> -> (every error type) and does not finish.
+//   (A) mount_next_linewriter_if_necessary(force) called directly, result forgotten;
+//   (B) write_buffer with (A) replaced by a recording stub that returns Ok(()).
+fn rec_mount_next(_s: &mut State, force: bool) -> Result<(), FlexiLoggerError> {
+    vs::ev_push(if force { 7 } else { 6 });
+    Ok(())
+}
+
+// @verif prop=C01,C08,C19 tier=quick timeout=900 bounds=one-rotation-step,NumbersRCurrent(idx<1000),Size{max,cur}-all-u64,force-symbolic,fault-in{none,rename,open,cleanup}
+// (A) mount_next_linewriter_if_necessary from an arbitrary Active state (Numbers/rCURRENT, Size): rotates iff forced or the current file already holds more than N bytes; effects in the order rename -> open -> cleanup; afterwards index+1, size count 0, the new writer mounted; a failing rename or open returns Err before anything later happens and leaves the old writer mounted (nothing written is lost); no rotation -> no effect at all.
+step_harness! { 8,
+fn c01_rotate_numbers_size() {
+    vs::link_all();
+    let fault: u64 = kani::any();
+    kani::assume(fault <= 3);
+    vs::cell_set(0, fault);
+    let idx: u32 = kani::any();
+    kani::assume(idx < 1000);
+    let max_size: u64 = kani::any();
+    let current_size: u64 = kani::any();
+    let force: bool = kani::any();
+    let mut state = numbers_state(idx, max_size, current_size);
+    let r = state.mount_next_linewriter_if_necessary(force);
+    let rotate = force || current_size > max_size;
+    let ok = r.is_ok();
+    std::mem::forget(r);
+    if !rotate {
+        assert!(ok && vs::ev_len() == 0);
+    } else if fault == 1 {
+        assert!(!ok && vs::ev_len() == 1 && vs::ev_get(0) == 1);
+    } else if fault == 2 {
+        assert!(!ok && vs::ev_len() == 2 && vs::ev_get(0) == 1 && vs::ev_get(1) == 2);
+    } else {
+        assert!(vs::ev_len() == 3 && vs::ev_get(0) == 1 && vs::ev_get(1) == 2 && vs::ev_get(2) == 3);
+        assert!(ok == (fault != 3));
+    }
+    // which writer is mounted afterwards: flush it and look at the id
+    let n0 = vs::ev_len();
+    state.flush().ok();
+    let mounted = vs::ev_get(n0) & 0xf;
+    let new_mounted = rotate && fault != 1 && fault != 2;
+    assert!(mounted == if new_mounted { 1 } else { 0 });
+    if let Inner::Active(Some(rs), _, _) = &state.inner {
+        match (&rs.naming_state, &rs.roll_state) {
+            (NamingState::NumbersRCurrent(i2), RollState::Size { max_size: m2, current_size: c2 }) => {
+                assert!(*m2 == max_size);
+                if new_mounted {
+                    assert!(*i2 == idx + 1 && *c2 == 0);
+                } else if rotate && fault == 2 {
+                    // renamed but not re-opened: index advanced, size count kept
+                    assert!(*i2 == idx + 1 && *c2 == current_size);
+                } else {
+                    assert!(*i2 == idx && *c2 == current_size);
+                }
+            }
+            _ => unreachable!(),
+        }
+    } else {
+        unreachable!();
+    }
+    kani::cover!(rotate && !force && fault == 0, "rotation by size");
+    kani::cover!(force && current_size <= max_size && fault == 0, "explicitly triggered rotation below the limit");
+    kani::cover!(!rotate && current_size == max_size, "exactly at the limit: no rotation");
+    kani::cover!(rotate && fault == 2, "open fails after the rename");
+    std::mem::forget(state);
+}
+}
+
+// @verif prop=C01,C08,C15,C19 tier=quick timeout=900 bounds=one-write_buffer-call,Size{max,cur}(cur<2^63),record-length<=8-symbolic,write-fault-optional
+// (B) write_buffer on an Active state: asks the rotation half exactly once (not forced) before writing, hands the whole record to the mounted writer in one piece exactly once, and only then adds its length to the size count; a failing write is returned as Err and the size count stays unchanged; an Active state is never re-initialised.
+#[kani::proof]
+#[kani::unwind(8)]
+#[kani::stub(verif_support::reexp::catch_unwind, verif_support::stub_cu)]
+#[kani::stub(chrono::Local::now, stub_now)]
+#[kani::stub(State::initialize, cut_initialize)]
+#[kani::stub(State::mount_next_linewriter_if_necessary, rec_mount_next)]
+#[kani::stub(crate::util::eprint_err, stub_eprint_err_ev)]
+fn c01_write_buffer_glue() {
+    vs::link_all();
+    let wfault: bool = kani::any();
+    vs::cell_set(0, if wfault { 4 } else { 0 });
+    let max_size: u64 = kani::any();
+    let current_size: u64 = kani::any();
+    kani::assume(current_size < (1u64 << 63));
+    let mut state = numbers_state(3, max_size, current_size);
+    let len: usize = kani::any();
+    kani::assume(len <= 8);
+    let buf = [b'x'; 8];
+    let r = state.write_buffer(&buf[..len]);
+    let ok = r.is_ok();
+    std::mem::forget(r);
+    assert!(vs::ev_get(0) == 6);
+    if wfault && len > 0 {
+        assert!(!ok && vs::ev_len() == 1);
+    } else {
+        assert!(ok);
+        if len > 0 {
+            assert!(vs::ev_len() == 2 && vs::ev_get(1) == (0x100 | len as u32));
+        }
+    }
+    if let Inner::Active(Some(rs), _, _) = &state.inner {
+        match &rs.roll_state {
+            RollState::Size { max_size: m2, current_size: c2 } => {
+                assert!(*m2 == max_size);
+                assert!(*c2 == if ok { current_size + len as u64 } else { current_size });
+            }
+            _ => unreachable!(),
+        }
+    } else {
+        unreachable!();
+    }
+    kani::cover!(ok && len == 8, "8-byte record written");
+    kani::cover!(!ok, "write failed");
+    kani::cover!(ok && len == 0, "empty record");
+    std::mem::forget(state);
+}
